@@ -119,8 +119,10 @@ def k_graph(ctx, seqs, k, engine, mode, method, labels="list", max_returns=None)
         return
     df = out.value
     try:
-        got_nodes = [str(x) for x in df["node"].tolist()]
-        got_clusters = df["cluster"].tolist()
+        ncol = "node" if "node" in df.columns else df.columns[0]
+        ccol = "cluster" if "cluster" in df.columns else df.columns[-1]
+        got_nodes = [str(x) for x in df[ncol].tolist()]
+        got_clusters = df[ccol].tolist()
     except Exception as e:
         ctx.violation(f"graph_clustering:{method}:malformed", f"result has no node/cluster columns: {e}", df, None)
         return
